@@ -146,6 +146,17 @@ func concOps() []concOp {
 		}},
 		// postfix operators on floats
 		{"String(floatdec)", false, str("floatdec")},
+		// literals holding markup that no call of this process has evaluated before
+		{"EvaluateString(fresh literals)", false, func(tpl *textwire.Template, data map[string]any, abs string) string {
+			n := freshCounter.Add(1)
+			src := fmt.Sprintf("{{ \"<b>lit %d</b> & more\" }}|{{ '<i>%d</i>'.len() }}|{{ [\"a<%d\"][0] }}", n, n, n)
+			want := fmt.Sprintf("&lt;b&gt;lit %d&lt;/b&gt; &amp; more|%d|a&lt;%d", n, len(fmt.Sprintf("&lt;i&gt;%d&lt;/i&gt;", n)), n)
+			out, err := textwire.EvaluateString(src, nil)
+			if err != nil || out != want {
+				return fmt.Sprintf("fresh literals: got (%q, %v), want %q", out, err, want)
+			}
+			return "fresh literals rendered as expected"
+		}},
 		// the data buried in literals, calls on literal receivers, conditions and loop headers of every shape
 		{"String(shapes)", false, func(tpl *textwire.Template, data map[string]any, abs string) string {
 			g, _ := data["gid"].(int)
@@ -176,7 +187,7 @@ func concOps() []concOp {
 		}},
 		// long results of built-ins that differ from goroutine to goroutine through their data
 		{"EvaluateString(long built-in results)", false, func(tpl *textwire.Template, data map[string]any, abs string) string {
-			out, err := textwire.EvaluateString("{{ who.repeat(700 + gid) }}|{{ gid.decimal(\"-\", 1500 + gid) }}|{{ (who + \" \").repeat(300).trim().upper().len() }}|{{ who.repeat(600).reverse().len() }}", data)
+			out, err := textwire.EvaluateString("{{ gid.len() }}{{ (gid * 100003).len() }}{{ gid.str() }}{{ gid.float() }}{{ gid.abs() }}{{ gid.decimal() }}|{{ who.repeat(700 + gid) }}|{{ gid.decimal(\"-\", 1500 + gid) }}|{{ (who + \" \").repeat(300).trim().upper().len() }}|{{ who.repeat(600).reverse().len() }}", data)
 			return fmt.Sprintf("out=%s err=%v", out, err)
 		}},
 		// a failing element of an array literal, a failing argument of a call: the message names this goroutine's own fault
